@@ -242,9 +242,13 @@ def clipIdx (n : Nat) (i : Int) : Nat :=
 /-- `v[s:e].sum()` over a length-`n` vector (empty when the clipped stop is not after the clipped start). -/
 def sliceSum (n : Nat) (v : Nat → α) (s e : Int) : α := sumRange (clipIdx n s) (clipIdx n e) v
 
+/-- `0 <= start < end <= len(self)`: the slot range is a non-empty range inside the horizon. -/
+def cbRangeOk (n : Nat) (c : CBound4 α) : Bool := decide (0 ≤ c.s ∧ c.s < c.e ∧ c.e ≤ (n : Int))
+
 /-- the checks of `set_cbound` after the arity test, in the code's order. -/
 def cb4Ok (n : Nat) (lb hb : Nat → α) (c : CBound4 α) : Bool :=
-  if c.h ≤ c.l then false
+  if ¬ cbRangeOk n c then false
+  else if c.h ≤ c.l then false
   else if sliceSum n lb c.s c.e > c.h then false
   else if sliceSum n hb c.s c.e < c.l then false
   else true
@@ -276,7 +280,8 @@ def setCbounds (n : Nat) (lb hb : Nat → α) : CbSpec α → Option (List (CBou
 /-- the checks of `set_cbound` when the bounds table is entirely `None`: `lbounds[s:e].sum()` is `0` for an empty
 slice and anything else ends in a `TypeError` (`None + None`, `None > h`). `none` = accepted. -/
 def cb4None (n : Nat) (c : CBound4 α) : Option Err :=
-  if c.h ≤ c.l then some .valueError
+  if ¬ cbRangeOk n c then some .valueError
+  else if c.h ≤ c.l then some .valueError
   else if clipIdx n c.e ≤ clipIdx n c.s then
     (if (0 : α) > c.h then some .valueError else if (0 : α) < c.l then some .valueError else Option.none)
   else some .typeError
@@ -397,7 +402,7 @@ def mfCheck (nFlows : Nat) (n : Nat) (lb hb : Nat → α) : Bool :=
 /-- `TwoRatioMFDeviceSet.__init__` after `super().__init__`. -/
 def twoRatioCheck (nFlows : Nat) (ratiosLen : Option Nat) (ctypeOk : Bool) : Bool :=
   if nFlows ≠ 2 then false
-  else if (match ratiosLen with | some k => decide (k ≠ nFlows) | Option.none => false) then false
+  else if (match ratiosLen with | some k => decide (k ≠ nFlows) | Option.none => true) then false
   else if ¬ ctypeOk then false
   else true
 
@@ -419,7 +424,7 @@ inductive Val (α : Type) where
   | vec (xs : List α)
   | pyNone
   | optPair (a b : Option α)
-  | ndim (k : Nat)                 -- an array argument of which only `np.array(·).ndim` matters (`cost_coeffs`)
+  | ndim (k rows : Nat)            -- an array argument of which only `np.array(·).ndim` and `len(·)` matter (`cost_coeffs`)
   | bounds (v : PyVal α)
   | cbounds (c : CbSpec α)
 
@@ -446,7 +451,7 @@ structure Dev (α : Type) where
   ph : PVal α
   ca : α
   cb : α
-  coeffNdim : Option Nat
+  coeffNdim : Option (Nat × Nat)             -- (ndim, number of rows) of the stored `cost_coeffs`
   extra : List (Field × Val α)               -- plain attributes (keys the class has no property for)
 
 /-- class defaults (`_c1 = 1.0`, `_p_l = -1`, …) before `__init__` runs. -/
@@ -477,6 +482,12 @@ def asPVal : Val α → Option (PVal α)
   | .scalar x => some (.scalar x)
   | .vec xs => some (.vec xs)
   | _ => Option.none
+
+/-- `CDevice2._validate_param`: `if v.ndim != 0: raise` — its curve applies to the scalar flow sum. -/
+def scalarIfC2 (cls : Cls) (p : PVal α) : Bool :=
+  match cls, p with
+  | .cdevice2, .vec _ => false
+  | _, _ => true
 
 /-- accept `d'` when `ok`, else `ValueError` with the state unchanged. -/
 def guardSet (d d' : Dev α) (ok : Bool) : Dev α × Option Err :=
@@ -548,13 +559,13 @@ def setField (d : Dev α) (f : Field) (v : Val α) : Dev α × Option Err :=
     if d.cls = .cdevice then scalarSet d v (fun _ => true) (fun x => { d with cb := x })
     else pvalSet d v (fun p => iBOk p d.n) (fun p => { d with ib := p })
   | .c => pvalSet d v (fun p => iParamOk p d.n) (fun p => { d with ic := p })
-  | .pL => pvalSet d v (fun p => pLOk p d.ph d.n) (fun p => { d with pl := p })
-  | .pH => pvalSet d v (fun p => pHOk p d.pl d.n) (fun p => { d with ph := p })
+  | .pL => pvalSet d v (fun p => scalarIfC2 d.cls p && pLOk p d.ph d.n) (fun p => { d with pl := p })
+  | .pH => pvalSet d v (fun p => scalarIfC2 d.cls p && pHOk p d.pl d.n) (fun p => { d with ph := p })
   | .costCoeffs =>
     match v with
-    | .ndim k =>
-      -- `self._cost_coeffs = cost` comes first: a rejected value is retained
-      ({ d with coeffNdim := some k }, if k = 1 ∨ k = 2 then Option.none else some .valueError)
+    | .ndim k rows =>
+      -- `self._cost_coeffs = cost` comes first: a rejected value is retained; a per-slot table needs one row per slot
+      ({ d with coeffNdim := some (k, rows) }, if k = 1 ∨ (k = 2 ∧ rows = d.n) then Option.none else some .valueError)
     | _ => (d, some .unmodelled)
 
 /-- apply assignments in order, stopping at the first exception (a constructor, or a caller that does not catch). -/
@@ -588,7 +599,9 @@ def cdevice2Fill (d : Dev α) : Except Err (Dev α) :=
 /-- building the cost function: with two or more cumulative bounds `RangesFunction` wants contiguous ranges from 0. -/
 def cdevice2Ranges (d : Dev α) : Except Err (Dev α) :=
   match d.cbounds with
-  | some (c :: c2 :: cs) => if rangesOk 0 (c :: c2 :: cs) then .ok d else .error .valueError
+  | some (c :: c2 :: cs) =>
+    if ((c :: c2 :: cs).getLast?.map (·.e)) ≠ some (d.n : Int) then .error .valueError    -- 'must cover the whole horizon'
+    else if rangesOk 0 (c :: c2 :: cs) then .ok d else .error .valueError
   | _ => .ok d
 
 /-- the part of `CDevice2.__init__` after `super().__init__`: default cumulative bounds, cost-function ranges. -/
